@@ -126,10 +126,10 @@ func Label(r *rand.Rand, level int) string {
 	case 0:
 		return Pick(r, []string{"a", "b", "foo", "bar", "web", "db", "x1"})
 	case 1:
-		return Pick(r, []string{"a", "foo", "A", "a b", "a.b", "a-b", "1", "", "true", "for", "é", "b", "c", "b.c", "a.b.c"})
+		return Pick(r, []string{"a", "foo", "A", "a b", "a.b", "a-b", "1", "", "true", "for", "é", "b", "c", "b.c", "a.b.c", "//", "#"})
 	}
 	if Chance(r, 0.5) {
-		return Pick(r, []string{"a", "foo", "a$b", "100%", "$${x}", "${x}", "%{y}", "a\"b", "a\\b", "", "A", "tab\there", "nl\nx", "$", "%", "é", "𝒳", "a b", "for", "null", "~"})
+		return Pick(r, []string{"a", "foo", "a$b", "100%", "$${x}", "${x}", "%{y}", "a\"b", "a\\b", "", "A", "tab\there", "nl\nx", "$", "%", "é", "𝒳", "a b", "for", "null", "~", "//", "/*", "#"})
 	}
 	return Str(r, 2)
 }
@@ -138,17 +138,18 @@ func Label(r *rand.Rand, level int) string {
 
 // FileLayout controls the structural layout of a native rendering.
 type FileLayout struct {
-	R         *rand.Rand
-	Expr      *Layout // expression layout (Body is forced true)
-	Indent    string
-	BlankProb float64
-	Comments  bool
-	CRLF      bool
-	NoFinalNL bool
-	BOM       bool
-	OneLine   bool // allow one-line blocks
-	BareLabel float64
-	Gap       float64 // structural token-gap noise
+	R          *rand.Rand
+	Expr       *Layout // expression layout (Body is forced true)
+	Indent     string
+	BlankProb  float64
+	Comments   bool
+	CRLF       bool
+	rawHeredoc bool
+	NoFinalNL  bool
+	BOM        bool
+	OneLine    bool // allow one-line blocks
+	BareLabel  float64
+	Gap        float64 // structural token-gap noise
 }
 
 func RandomFileLayout(r *rand.Rand) *FileLayout {
@@ -192,9 +193,10 @@ func (fl *FileLayout) comment() string {
 func RenderNative(b *Body, fl *FileLayout) string {
 	var sb strings.Builder
 	heredoc := false
+	fl.rawHeredoc = false
 	fl.renderBody(&sb, b, 0, &heredoc)
 	out := sb.String()
-	if fl.NoFinalNL && !heredoc {
+	if fl.NoFinalNL && !heredoc && !fl.rawHeredoc {
 		out = strings.TrimRight(out, "\n")
 	}
 	if fl.CRLF && !heredoc {
@@ -230,6 +232,9 @@ func (fl *FileLayout) renderBody(sb *strings.Builder, b *Body, depth int, heredo
 			src := RenderExpr(it.Attr.Expr, el)
 			if el.UsedHeredoc {
 				*heredoc = true
+			}
+			if it.Attr.Expr.Kind == KRaw && it.Attr.Expr.Bool {
+				fl.rawHeredoc = true // (a closing marker needs its newline; CRLF conversion still applies)
 			}
 			sb.WriteString(strings.TrimLeft(src, " \t"))
 			if strings.HasSuffix(src, "\n") {
